@@ -62,7 +62,7 @@ var knownEng = ev.Matcher[EngCase]{
 const rule = "(a) skip, metamorphic, 3 dialects: the C02 base and a set of 1-8 non-interfering catalogue edits; SchemaDiff with DiffSkipChanges(K) for every single kind K and random subsets of the 12 skippable table-level kinds " +
 	"must equal the unrestricted diff with every K-typed change removed at every nesting level (emptied ModifyTables removed), and walking it finds no K-typed change; " +
 	"the same with a materialized view on both sides whose index list differs (added / dropped / modified index, every subset; a view added or dropped), so that index changes are also nested in a ModifyView, x every kind incl. AddView/DropView/ModifyView. " +
-	"(b) exclusion, API: realms of 1-2 schemas (tables incl. names with a dot, columns, named indexes/FKs/checks) x sets of 1-4 patterns from a grammar (1-3 parts; literal, *, prefix*, ?, [ab]* classes, CSV-quoted names containing a dot, [type=a|b] selectors on any part); " +
+	"(b) exclusion, API: realms of 1-2 schemas (tables incl. names with a dot, columns, named indexes/FKs/checks) x sets of 1-4 patterns from a grammar (1-3 parts; literal, *, prefix*, ?, [ab]* classes, malformed globs (unclosed class: an error is demanded whenever the glob is applied to a name), CSV-quoted names containing a dot, [type=a|b] selectors on any part); " +
 	"ExcludeRealm must remove exactly the resources an independent reference of the documented semantics says (both directions). " +
 	"(c) exclusion on a real SQLite engine: InspectRealm / InspectSchema with Exclude against the same reference; CLI: `schema apply --exclude <tables>` (desired state given as database URL, HCL file, project-file data hcl_schema source with the patterns in the env, or SQL file) leaves excluded tables byte-identical (schema text + rows) while everything else converges, and `--env` with diff { skip { ... } } never performs a skipped kind of change. " +
 	"non-trivial = >=1 resource excluded and >=1 kept, or >=1 change skipped and >=1 kept; distinct key = (sub-check, patterns / skipped kinds, edit kinds)"
@@ -70,7 +70,7 @@ const rule = "(a) skip, metamorphic, 3 dialects: the C02 base and a set of 1-8 n
 func genPart(t *rapid.T, names []string, kinds []string) PPart {
 	var p PPart
 	n := rapid.SampledFrom(names).Draw(t, "name")
-	switch rapid.IntRange(0, 6).Draw(t, "glob") {
+	switch rapid.IntRange(0, 7).Draw(t, "glob") {
 	case 0:
 		p.Glob = "*"
 	case 1:
@@ -81,6 +81,11 @@ func genPart(t *rapid.T, names []string, kinds []string) PPart {
 		p.Glob = "[" + n[:1] + "z]*"
 	case 4:
 		p.Glob = "*" + n[len(n)-1:]
+	case 7:
+		p.Glob = "[" + n[:1] // malformed: unclosed character class
+		if rapid.Bool().Draw(t, "malformedtail") {
+			p.Glob = n[:1] + "[a-"
+		}
 	default:
 		p.Glob = n
 	}
